@@ -1,7 +1,7 @@
 (* C06 -- Binned metrics equal exhaustive per-threshold counting; optimisation modes agree.
    Statements only; proofs in Proofs/BinnedP.v, models in Models/Binned.v. *)
 From Coq Require Import ZArith List Bool QArith Qcanon Lia Sorted.
-From TE Require Import Base.Val Base.Nd Base.Xq Models.Binned Proofs.BinnedP.
+From TE Require Import Base.Val Base.Nd Base.Xq Algebra.Additive Models.Binned Proofs.BinnedP.
 Import ListNotations.
 Open Scope Z_scope.
 
@@ -97,6 +97,26 @@ Theorem binned_auprc_floor_partial : forall (T : list Z) (xs : list sample),
   = auprc_curve (map zq (bin_tp T (floored T xs))) (map zq (bin_fp T (floored T xs))) (map zq (bin_fn T (floored T xs))).
 Proof. exact binned_auprc_floor_invariant. Qed.
 
+(* 4. the AddSpec instances' [avalid] (which carries a computed shape condition so that the generic additive
+   algebra applies) is exactly the input check: the count tensors always have the registered states' shapes *)
+Theorem binned_valid_binary_curve : forall c xs, avalid bprc_spec c xs = true.
+Proof. exact bprc_valid_all. Qed.
+Theorem binned_valid_binary_auprc : forall c rows, length rows = bC c -> rect rows = true -> avalid bauprc_spec c rows = true.
+Proof. exact bauprc_valid_is_input_check. Qed.
+Theorem binned_valid_multiclass : forall c xs, asc (thresholds c) -> mc_ok (bC c) xs = true ->
+  avalid mcprc_spec c xs = true /\ avalid mcauprc_spec c xs = true.
+Proof. exact mc_valid_is_input_check. Qed.
+Theorem binned_valid_multilabel : forall c xs, asc (thresholds c) -> ml_ok (bC c) xs = true ->
+  avalid mlprc_spec c xs = true /\ avalid mlauprc_spec c xs = true.
+Proof. exact ml_valid_is_input_check. Qed.
+
+(* threshold construction: an integer n means linspace(0, 1, n) = i/(n-1) (exact on the grid when (n-1) | D) *)
+Example linspace_example :
+  linspace 8 5 = [0; 2; 4; 6; 8] /\ linspace 8 1 = [0] /\ linspace 8 9 = [0; 1; 2; 3; 4; 5; 6; 7; 8] /\
+  auprc_param_ok 8 (linspace 8 3) = true /\ auprc_param_ok 8 [0; 4; 4] = false /\ prc_param_ok 8 [2; 2; 5] = true /\
+  prc_param_ok 8 [2; 1] = false /\ prc_param_ok 8 [0; 9] = false.
+Proof. vm_compute. auto 10. Qed.
+
 (* non-vacuity: duplicated thresholds, neither 0 nor 1 a member; scores below the first, ON a threshold,
    between, and above the last threshold (grid of eighths) *)
 Example binned_counts_example :
@@ -147,3 +167,7 @@ Print Assumptions binned_auroc_floor_per_task.
 Print Assumptions binned_auroc_floor_per_class_multiclass_refuted.
 Print Assumptions binned_counts_depend_on_floors_only.
 Print Assumptions binned_auprc_floor_partial.
+Print Assumptions binned_valid_binary_curve.
+Print Assumptions binned_valid_binary_auprc.
+Print Assumptions binned_valid_multiclass.
+Print Assumptions binned_valid_multilabel.
